@@ -225,6 +225,8 @@ func execForced(c *core.Case, fc *forcedCase) {
 // number wraps
 
 func runWrap(c *core.Case) {
+	defer func(d time.Duration) { hardLimit = d }(hardLimit)
+	hardLimit = 8 * time.Minute
 	tc := &transferCase{Kind: "transfer-seq-wrap", PayloadSeed: c.Rand.Int63()}
 	const packets = 65536 + 40
 	sp := streamSpec{Opener: "A", Block: 3, Carrier: []string{"iq", "message"}[c.Rand.Intn(2)], Closer: "opener", SID: "wrap"}
